@@ -144,6 +144,15 @@ template <typename PSET>
 void
 Pointset_Powerset<PSET>::add_constraint(const Constraint& c) {
   Pointset_Powerset& x = *this;
+  // Dimension-compatibility check
+  // (the disjuncts would not detect it if there are none).
+  if (c.space_dimension() > x.space_dim) {
+    std::ostringstream s;
+    s << "PPL::Pointset_Powerset<PSET>::add_constraint(c):\n"
+      << "this->space_dimension() == " << x.space_dim << ", "
+      << "c.space_dimension() == " << c.space_dimension() << ".";
+    throw std::invalid_argument(s.str());
+  }
   for (Sequence_iterator si = x.sequence.begin(),
          s_end = x.sequence.end(); si != s_end; ++si) {
     si->pointset().add_constraint(c);
